@@ -869,7 +869,7 @@ func (s *Service) setDefaultOwnership() {
 		if s.Contains(func(h Handler) bool {
 			return h.Get != nil || len(h.Call) > 0 || len(h.Auth) > 0 || h.New != nil
 		}) {
-			s.resetResources = []string{s.Mux.path, mergePattern(s.Mux.path, ">")}
+			s.resetResources = defaultOwnership(s.Mux.path)
 		} else {
 			s.resetResources = []string{}
 		}
@@ -879,11 +879,20 @@ func (s *Service) setDefaultOwnership() {
 		if s.Contains(func(h Handler) bool {
 			return h.Access != nil
 		}) {
-			s.resetAccess = []string{s.Mux.path, mergePattern(s.Mux.path, ">")}
+			s.resetAccess = defaultOwnership(s.Mux.path)
 		} else {
 			s.resetAccess = []string{}
 		}
 	}
+}
+
+// defaultOwnership returns the patterns for the resource with the name path,
+// and all resources below it, or for all resources if path is empty.
+func defaultOwnership(path string) []string {
+	if path == "" {
+		return []string{">"}
+	}
+	return []string{path, mergePattern(path, ">")}
 }
 
 // subscribe makes a nats subscription for each required request type, based on
